@@ -25,13 +25,15 @@
 
    What L2 keeps from the Go data structures, because C12 is about them:
      * Body.items / blockLabels.items: the nodeSet, as a list of ids, kept next
-       to the ordered child list (Body.Clear empties the children, not items:
-       the orphaned nodes stay reachable through items — field `limbo`);
+       to the ordered child list;
      * the cached handles Attribute.{leadComments,name,expr,lineComments} and
        Block.{leadComments,typeName,labels,open,body,close} as ids;
-       Block.SetType discards the node returned by ReplaceWith, so typeName
-       keeps pointing at the detached node (field `klimbo` keeps it alive);
-     * n.list == nil  <->  the id is not in the owner's child list (nor limbo).
+     * n.list == nil  <->  the id is not in the owner's child list.
+   (Earlier revisions of the Go code left Body.items untouched in Clear and
+   dropped the node returned by ReplaceWith in SetType; the model then carried
+   `limbo` fields for the orphaned nodes.  Both are repaired — commits "Body.Clear
+   must also forget the removed items", "Block.SetType must remember the node it
+   inserted" — and the fields are gone.)
    Expression contents are flattened to their token list (RenameVariablePrefix
    is not modelled).  A Block has exactly one Body child (never replaced or
    detached by any code path), so its child list is pre ++ [body] ++ post. *)
@@ -114,26 +116,24 @@ Inductive kleaf := KLeaf (l : leaf) | KLabels (l : labels).
 (* ast_body.go: Body{inTree; items nodeSet}; ast_block.go: Block{inTree; six handles}.
    Handle value 0 = nil. *)
 Inductive body :=
-| mkBody (ch : list (Z * bitem)) (items : list Z) (limbo : list (Z * bitem))
+| mkBody (ch : list (Z * bitem)) (items : list Z)
 with bitem :=
 | ITokens (ts : list tok)
 | IAttr (a : attr)
 | IBlock (k : block)
 with block :=
 | mkBlock (pre : list (Z * kleaf)) (bid : Z) (bd : body) (post : list (Z * kleaf))
-          (h_lead h_type h_labels h_open h_body h_close : Z) (klimbo : list (Z * kleaf)).
+          (h_lead h_type h_labels h_open h_body h_close : Z).
 
-Definition b_ch (b : body) := match b with mkBody ch _ _ => ch end.
-Definition b_items (b : body) := match b with mkBody _ it _ => it end.
-Definition b_limbo (b : body) := match b with mkBody _ _ lb => lb end.
-Definition k_pre (k : block) := match k with mkBlock pre _ _ _ _ _ _ _ _ _ _ => pre end.
-Definition k_bid (k : block) := match k with mkBlock _ bid _ _ _ _ _ _ _ _ _ => bid end.
-Definition k_bd (k : block) := match k with mkBlock _ _ bd _ _ _ _ _ _ _ _ => bd end.
-Definition k_post (k : block) := match k with mkBlock _ _ _ post _ _ _ _ _ _ _ => post end.
-Definition k_htype (k : block) := match k with mkBlock _ _ _ _ _ h _ _ _ _ _ => h end.
-Definition k_hlabels (k : block) := match k with mkBlock _ _ _ _ _ _ h _ _ _ _ => h end.
-Definition k_hbody (k : block) := match k with mkBlock _ _ _ _ _ _ _ _ h _ _ => h end.
-Definition k_limbo (k : block) := match k with mkBlock _ _ _ _ _ _ _ _ _ _ lb => lb end.
+Definition b_ch (b : body) := match b with mkBody ch _ => ch end.
+Definition b_items (b : body) := match b with mkBody _ it => it end.
+Definition k_pre (k : block) := match k with mkBlock pre _ _ _ _ _ _ _ _ _ => pre end.
+Definition k_bid (k : block) := match k with mkBlock _ bid _ _ _ _ _ _ _ _ => bid end.
+Definition k_bd (k : block) := match k with mkBlock _ _ bd _ _ _ _ _ _ _ => bd end.
+Definition k_post (k : block) := match k with mkBlock _ _ _ post _ _ _ _ _ _ => post end.
+Definition k_htype (k : block) := match k with mkBlock _ _ _ _ _ h _ _ _ _ => h end.
+Definition k_hlabels (k : block) := match k with mkBlock _ _ _ _ _ _ h _ _ _ => h end.
+Definition k_hbody (k : block) := match k with mkBlock _ _ _ _ _ _ _ _ h _ => h end.
 
 (* File{inTree; body}: children = [Tokens before; body; Tokens after] (parser.go parse)
    or [body] (NewEmptyFile).  shelf: blocks removed with RemoveBlock whose *Block
@@ -153,7 +153,7 @@ Definition kleaves_tokens (l : list (Z * kleaf)) : list tok := flat_map (fun n =
 (* inTree.BuildTokens: walk the children from first *)
 Fixpoint body_tokens (b : body) : list tok :=
   match b with
-  | mkBody ch _ _ =>
+  | mkBody ch _ =>
       (fix go (l : list (Z * bitem)) : list tok :=
          match l with [] => [] | n :: r => item_tokens (snd n) ++ go r end) ch
   end
@@ -165,7 +165,7 @@ with item_tokens (it : bitem) : list tok :=
   end
 with block_tokens (k : block) : list tok :=
   match k with
-  | mkBlock pre _ bd post _ _ _ _ _ _ _ => kleaves_tokens pre ++ body_tokens bd ++ kleaves_tokens post
+  | mkBlock pre _ bd post _ _ _ _ _ _ => kleaves_tokens pre ++ body_tokens bd ++ kleaves_tokens post
   end.
 
 (* hook VerifFileTokens = File.inTree.children.BuildTokens(nil) *)
@@ -262,15 +262,15 @@ Definition labels_current (unesc : list Z -> option (list Z)) (l : labels) : lis
 
 (* ---- Block ------------------------------------------------------------------------------------ *)
 Definition k_used (k : block) : list Z :=
-  ids (k_pre k) ++ k_bid k :: ids (k_post k) ++ ids (k_limbo k).
+  ids (k_pre k) ++ k_bid k :: ids (k_post k).
 
 (* Block.init *)
 Definition new_block (ty : list Z) (ls : list (list tok)) : block :=
   mkBlock [ (1, KLeaf (LComments [])); (2, KLeaf (LIdent (ident_tok ty)));
             (3, KLabels (labels_replace ls)); (4, KLeaf (LTokens [tok_ob; tok_nl])) ]
-          5 (mkBody [] [] [])
+          5 (mkBody [] [])
           [ (6, KLeaf (LTokens [tok_cb; tok_nl])) ]
-          1 2 3 4 5 6 [].
+          1 2 3 4 5 6.
 
 (* Block.Body: b.body.content.(ptr Body) *)
 Definition block_body (k : block) : outcome body :=
@@ -278,30 +278,28 @@ Definition block_body (k : block) : outcome body :=
 
 Definition block_with_body (k : block) (bd' : body) : block :=
   match k with
-  | mkBlock pre bid _ post h1 h2 h3 h4 h5 h6 lb => mkBlock pre bid bd' post h1 h2 h3 h4 h5 h6 lb
+  | mkBlock pre bid _ post h1 h2 h3 h4 h5 h6 => mkBlock pre bid bd' post h1 h2 h3 h4 h5 h6
   end.
 
-(* Block.Type: b.typeName.content.(ptr identifier) — through the handle, attached or not *)
+(* Block.Type: b.typeName.content.(ptr identifier) *)
 Definition block_type (k : block) : outcome tok :=
-  match find_id (k_htype k) (k_pre k ++ k_post k ++ k_limbo k) with
+  match find_id (k_htype k) (k_pre k ++ k_post k) with
   | Some (KLeaf (LIdent t)) => Ok t
   | _ => Panic
   end.
 
-(* Block.SetType: b.typeName.ReplaceWith(nameObj) — the returned node is
-   DISCARDED, so the handle keeps pointing at the old node, which is now
-   detached (list == nil) and only kept alive by the handle (klimbo). *)
+(* Block.SetType: b.typeName = b.typeName.ReplaceWith(nameObj) *)
 Definition block_set_type (ty : list Z) (k : block) : outcome block :=
   match k with
-  | mkBlock pre bid bd post h1 h2 h3 h4 h5 h6 lb =>
+  | mkBlock pre bid bd post h1 h2 h3 h4 h5 h6 =>
       match find_id h2 pre with
       | None => Panic                       (* n.list == nil (detached) *)
-      | Some old =>
+      | Some _ =>
           if is_first h2 pre then Corrupt   (* would need first to be updated *)
           else
             let j := fresh_of (k_used k) in
             Ok (mkBlock (repl_id h2 (j, KLeaf (LIdent (ident_tok ty))) pre) bid bd post
-                        h1 h2 h3 h4 h5 h6 (lb ++ [(h2, old)]))
+                        h1 j h3 h4 h5 h6)
       end
   end.
 
@@ -320,14 +318,13 @@ Definition block_labels (unesc : list Z -> option (list Z)) (k : block) : outcom
 Definition block_set_labels (ls : list (list tok)) (k : block) : outcome block :=
   do _l <- block_labels_obj k;
   match k with
-  | mkBlock pre bid bd post h1 h2 h3 h4 h5 h6 lb =>
+  | mkBlock pre bid bd post h1 h2 h3 h4 h5 h6 =>
       let n := KLabels (labels_replace ls) in
-      Ok (mkBlock (upd_id h3 n pre) bid bd (upd_id h3 n post) h1 h2 h3 h4 h5 h6 lb)
+      Ok (mkBlock (upd_id h3 n pre) bid bd (upd_id h3 n post) h1 h2 h3 h4 h5 h6)
   end.
 
 (* ---- Body --------------------------------------------------------------------------------------- *)
-(* Body.getAttributeNode / GetAttribute: for n := range b.items (all nodes the
-   set still references: children and orphans of Clear) *)
+(* Body.getAttributeNode / GetAttribute: for n := range b.items *)
 Fixpoint get_attr_node (nm : list Z) (all : list (Z * bitem)) (items : list Z)
   : outcome (option (Z * attr)) :=
   match items with
@@ -342,17 +339,17 @@ Fixpoint get_attr_node (nm : list Z) (all : list (Z * bitem)) (items : list Z)
   end.
 
 Definition body_get_attr_node (nm : list Z) (b : body) : outcome (option (Z * attr)) :=
-  get_attr_node nm (b_ch b ++ b_limbo b) (b_items b).
+  get_attr_node nm (b_ch b) (b_items b).
 
-(* mutate the content of node i wherever the node lives *)
+(* mutate the content of node i *)
 Definition body_upd_node (i : Z) (it : bitem) (b : body) : body :=
-  match b with mkBody ch items limbo => mkBody (upd_id i it ch) items (upd_id i it limbo) end.
+  match b with mkBody ch items => mkBody (upd_id i it ch) items end.
 
 (* Body.appendItem: nn := children.Append(c); items.Add(nn) *)
 Definition body_append_item (it : bitem) (b : body) : body :=
   match b with
-  | mkBody ch items limbo =>
-      let j := fresh (ch ++ limbo) in mkBody (ch ++ [(j, it)]) (items ++ [j]) limbo
+  | mkBody ch items =>
+      let j := fresh ch in mkBody (ch ++ [(j, it)]) (items ++ [j])
   end.
 
 (* Body.SetAttributeRaw / SetAttributeValue / SetAttributeTraversal: e = tokens of
@@ -376,8 +373,8 @@ Definition body_rename_attr (from to_ : list Z) (b : body) : outcome body :=
 (* node.Detach + items.Remove *)
 Definition body_remove_node (i : Z) (b : body) : body :=
   match b with
-  | mkBody ch items limbo =>
-      mkBody (remove_id i ch) (filter (fun j => negb (j =? i)) items) (remove_id i limbo)
+  | mkBody ch items =>
+      mkBody (remove_id i ch) (filter (fun j => negb (j =? i)) items)
   end.
 
 (* Body.RemoveAttribute *)
@@ -406,7 +403,7 @@ Fixpoint attrs_of (all : list (Z * bitem)) (items : list Z) : outcome (list (lis
       end
   end.
 Definition body_attributes (b : body) : outcome (list (list Z * list tok)) :=
-  attrs_of (b_ch b ++ b_limbo b) (b_items b).
+  attrs_of (b_ch b) (b_items b).
 
 (* Body.GetAttribute(name) then Expr().BuildTokens *)
 Definition body_get_attribute (nm : list Z) (b : body) : outcome (option (list tok)) :=
@@ -439,15 +436,11 @@ Definition body_upd_block (i : Z) (f : block -> outcome block) (b : body) : outc
    AppendNewline is the case ts = [newline] *)
 Definition body_append_raw (ts : list tok) (b : body) : outcome body :=
   match b with
-  | mkBody ch items limbo => Ok (mkBody (ch ++ [(fresh (ch ++ limbo), ITokens ts)]) items limbo)
+  | mkBody ch items => Ok (mkBody (ch ++ [(fresh ch, ITokens ts)]) items)
   end.
 
-(* Body.Clear: b.children.Clear() — first = last = nil; items is NOT cleared and the
-   old nodes keep list != nil: they stay reachable from items *)
-Definition body_clear (b : body) : outcome body :=
-  match b with
-  | mkBody ch items limbo => Ok (mkBody [] items (limbo ++ filter (fun n => mem (fst n) items) ch))
-  end.
+(* Body.Clear: b.children.Clear(); b.items.Clear() *)
+Definition body_clear (b : body) : outcome body := Ok (mkBody [] []).
 
 (* ---- nested bodies: b.Blocks()[i].Body() along a path ----------------------------- *)
 Fixpoint with_body (p : list Z) (f : body -> outcome body) (b : body) {struct p} : outcome body :=
@@ -539,8 +532,8 @@ Inductive bobs := BObs (attrs : list (list Z * list tok)) (blocks : list (list Z
 
 Fixpoint observe (unesc : list Z -> option (list Z)) (b : body) : outcome bobs :=
   match b with
-  | mkBody ch items limbo =>
-      do ats <- attrs_of (ch ++ limbo) items;
+  | mkBody ch items =>
+      do ats <- attrs_of ch items;
       do bls <-
         (fix go (l : list (Z * bitem)) : outcome (list (list Z * list (list Z) * bobs)) :=
            match l with
@@ -558,7 +551,7 @@ Fixpoint observe (unesc : list Z -> option (list Z)) (b : body) : outcome bobs :
 with observe_block (unesc : list Z -> option (list Z)) (k : block)
   : outcome (list Z * list (list Z) * bobs) :=
   match k with
-  | mkBlock pre bid bd post h1 h2 h3 h4 h5 h6 lb =>
+  | mkBlock pre bid bd post h1 h2 h3 h4 h5 h6 =>
       do t <- block_type k;
       do ls <- block_labels unesc k;
       if h5 =? bid then (do o <- observe unesc bd; Ok (bytes t, ls, o)) else Panic
@@ -700,20 +693,24 @@ Inductive content1 :=
 | C1Block (children : Z) (leadComments typeName labels open body close : Z)
 | C1Labels (children : Z) (items : list Z).
 
-(* Block.SetType at L1: the new node returned by ReplaceWith is dropped *)
+(* Block.SetType at L1: the handle is set to the node returned by ReplaceWith *)
 Definition set_type1 (h : heap content1) (blk : Z) (ty : list Z) : outcome (heap content1) :=
   do c <- get_cell _ h blk;
   match c_content _ c with
-  | C1Block _ _ tn _ _ _ _ =>
-      do r <- replace_with1 _ h tn (C1Ident (ident_tok ty)); Ok (snd r)
+  | C1Block ch ld tn lb op bd cl =>
+      do r <- replace_with1 _ h tn (C1Ident (ident_tok ty));
+      let '(nn, h') := r in
+      do c' <- get_cell _ h' blk;
+      Ok (set_cell _ h' blk (mkCell _ (C1Block ch ld nn lb op bd cl) (c_list _ c') (c_before _ c') (c_after _ c')))
   | _ => Panic
   end.
 
-(* Body.Clear at L1: only the header of the child list changes *)
+(* Body.Clear at L1: the header of the child list and the item set *)
 Definition body_clear1 (h : heap content1) (bdy : Z) : outcome (heap content1) :=
   do c <- get_cell _ h bdy;
   match c_content _ c with
-  | C1Body ch _ => Ok (clear _ h ch)
+  | C1Body ch _ =>
+      Ok (set_cell _ (clear _ h ch) bdy (mkCell _ (C1Body ch []) (c_list _ c) (c_before _ c) (c_after _ c)))
   | _ => Panic
   end.
 End L1.
